@@ -220,6 +220,22 @@ def drops(F, R):
             hit = [c for c in F.closures_of(ob.path) if any((callee_path(t) or '').endswith(pred) or pred in (callee_path(t) or '') for _, t in c.calls())]
             R.check(bool(hit), 'B.C08.drop', 'pred:' + h, '%s does not remove with a predicate reading the flag (%s)' % (owner_osp, pred),
                     detail={'predicate': pred})
+    # the marker really raises the flag, and the reader reads the same one
+    from .c07 import origin_pl, last_field
+    for sh in ('clock::ClockShared', 'track::TrackShared', 'listener::ListenerShared'):
+        mb = F.body(sh + '::mark_for_removal')
+        rb = F.body(sh + '::is_marked_for_removal')
+        if not R.check(mb is not None and rb is not None, 'B.C08.drop', 'anchor:flag:' + sh, '%s::mark_for_removal / is_marked_for_removal not found' % sh):
+            continue
+        st = [(last_field(origin_pl(mb, t['args'][0]) or {}), describe(mb, t['args'][1])) for bb, t in mb.calls()
+              if (callee_path(t) or '').endswith('::store') and 'Atomic' in (callee_path(t) or '')]
+        ld = [last_field(origin_pl(rb, t['args'][0]) or {}) for bb, t in rb.calls()
+              if (callee_path(t) or '').endswith('::load') and 'Atomic' in (callee_path(t) or '')]
+        ok = len(st) == 1 and st[0][1] == 'True' and len(ld) == 1 and st[0][0] is not None and st[0][0] == ld[0] \
+            and all(mb.dominates(bb, r) for bb, t in mb.calls() if (callee_path(t) or '').endswith('::store') for r in mb.return_blocks())
+        R.check(ok, 'B.C08.drop', 'flag:' + sh,
+                '%s::mark_for_removal does not store `true` into the flag that is_marked_for_removal loads (stores: %s, loads: %s): dropping '
+                'the handle would never remove the resource' % (sh, st, ld), detail={'flag': st[0][0] if st else None})
     R.floor('B.C08.drop', n, 7)
     # modulators: finished() reads the same flag the handle sets
     for m in ('modulator::tweener::Tweener', 'modulator::lfo::Lfo'):
